@@ -4,13 +4,48 @@ Mode 3 (ledger).  The floating-point NIPALS results are not recomputed in TLA+:
 (M)  Pca.tla, section Model: a nondeterministic ideal PCA over small integer budgets emits ledger events; TLC shows
      the ledger accepts every ideal run (not contradictory), the budget never goes negative, Finish comes only
      after npc extractions, full rank closes the budget; five model-level faults must each be rejected.
-(C)  c01_drv fits the real PCA() on random in-quantifier matrices (shapes 2..60 x 1..25, scalings -1..5, npc 1..rank,
-     processor counts 1,2,3,16,24), each fit in a child process under the H4 iteration budget, computes the residual
+     PcaStart.tla (extends Pca.tla), section Start: the ideal NIPALS extraction under the DOCUMENTED stopping rule - a
+     component is the dominant remaining axis unless its start column is (nearly) orthogonal to it (Pca!PrematureStop),
+     in which case a non-dominant axis may come first: the ledger with the classified waiver accepts every such run,
+     budget and closure do not depend on the order, the waiver is reachable (NoWaiver refuted), a well-started component
+     returned out of order and an incoherent logged eigenvalue ratio are rejected, theorems about the classification
+     predicate hold over a grid (StartTheorems: exact orthogonality always qualifies, monotone in cos^2 and n, cos^2 >=
+     1e-2 never excuses an inversion >= 5 %, the two recorded witnesses qualify).  Section Outputs: the predictors'
+     OUTPUT objects under every prior content - answers right iff ResizeMatrix zero-fills an equally shaped output; the
+     variant that returns early is refuted by TLC on every run (PCAIndVarPredictor accumulates into its output).
+(C)  c01_drv fits the real PCA() on in-quantifier matrices (shapes 2..60 x 1..25, scalings -1..5, npc 1..rank,
+     processor counts 1,2,3,5,16,24), each fit in a child process under the H4 iteration budget, computes the residual
      of every identity itself (rank from LAPACK dgesdd on the preprocessed matrix) and logs them as integers;
      TLC validates every recorded fit against TracePca.tla (Prop layer = the property; Impl layer = dmodx and
-     bit-level re-projection).
+     bit-level re-projection).  Generators: random (round 1) + stratified input classes K1..K8 of INPUT-CLASSES.md
+     (shape relations and block / slice boundaries, locations 1e6..1e8 x spread, magnitudes at the floor / top of the
+     quantifier with ill-conditioned minor components, non-representable constants and ties, exactly orthogonal
+     designs, duplicate rows / columns, predictor outputs handed over empty / other shape / EQUAL shape holding data,
+     in-process histories of four fits with reused addresses and outputs).  TLC computes the class tags of every
+     recorded fit (Pca!FitTags) -> coverage.classes.
+
+Clause table (statement of C01 -> what decides it -> event that carries it):
+  for every finite matrix / scaling, rank >= npc       TFit: ShapeOk (npc <= rank <= min(n, c)), rank = dgesdd oracle     Fit{n,c,scaling,npc,rank,tail,nproc}
+  orthonormal loadings                                 PropAlg.ortho                                                       Extract.ortho
+  scores = successive projections of the data          PropAlg.proj  (t_k = E_{k-1} p_k, harness's own deflation)          Extract.proj
+  data = scores x loadings^T + residual                PropAlg.recon (successive = direct deflation), PropResidual          Extract.recon, Project.gr (GetResidualMatrix)
+  residual orthogonal to every extracted loading       PropAlg.rorth                                                       Extract.rorth
+  explained variances non-negative                     PropEvalSign, PropVarexpW (ve[i] >= 0)                              Extract.eval, Finish.varexp
+  ... non-increasing                                   PropEvalOrder; else StartOrthogonal => KNOWN FINDING, else reject    Extract.eval/.sc12/.sc9/.r9; Finish.varexp
+  ... are the eigenvalues over ss0                     PropVarexpW (|ve - eval| <= TolEig), PropBudget (Pythagoras)          Extract.eval/.resid, Finish.varexp
+  ... sum to at most 100 %                             PropVarexpW (sum), PropBudget (resid >= 0)                          Finish.varexp, Extract.resid
+  ... sum to 100 % when all components are taken       PropClosed (IsFull)                                                 Finish.varexp, Extract.resid, Fit.tail
+  back-transformation reproduces the original matrix   PropBackAll (a = npc: err; a < npc: the same identity with the       Back{err,repr,scan}
+                                                       residual, all calls into ONE output object)
+  projecting the training matrix reproduces the scores PropProjectAll (a = npc, then a < npc into the same output)          Project{err,part}
+  every processor count seen by the MT kernels         Fit.nproc in {1,2,3,5,16,24}, shapes c < nproc, n < nproc,           Fit.nproc (classes K6/K2 by FitTags)
+                                                       n, c = k nproc +- 1 for both kernels
+Outside the statement (judged by TLC, reported as EXTRA-FINDING, never a verdict): PCA() into a model object that already holds a fit (Refit event),
+PCARSquared() = 1 - |X - back-transformation(a)|^2 / |X - means|^2 (RSq event).
+Known findings (classified by TLC from logged data, every other clause still judged on those fits): PCA:eigenvalue-order:start-orthogonal,
+PCA:varexp:score-equals-missing-code (known_findings.d/C01.json).
 """
-import math, os, shutil
+import json, math, os, shutil
 from concurrent.futures import ThreadPoolExecutor
 from vf import build, tlc, trace
 from vf import run as hrun
@@ -18,19 +53,55 @@ from vf.core import InfraError
 
 LEVEL = "exploration"
 READY = True
-TECHNIQUE = ("TLC model checking of the PCA variance ledger (Pca.tla: ideal runs accepted, five injected faults rejected) + TLC trace validation of "
-             "residual ledgers recorded from the real PCA/PCAScorePredictor/PCAIndVarPredictor on sampled in-quantifier matrices (hooks H2, H4; "
-             "rank oracle LAPACK dgesdd)")
-LEVEL_TEXT = ("Sampled inputs: random matrices inside the property's quantifier (all shapes classes, all 7 scalings, every admissible npc, processor counts "
-              "1/2/3/16/24) are fitted with the real library; the harness measures the residual of every stated identity in extended precision and TLC validates "
-              "each recorded fit against the ledger specification, evaluating orthonormality, projection, residual orthogonality, eigenvalue sign/order, the "
-              "variance budget (Pythagoras), explained-variance consistency, closure at full rank, re-projection and back-transformation at every step.")
-LEVEL_NOTE = ("Exploration, not exhaustive. Trusts TLC, the harness's residual evaluation and quantisation (binding self-test: a residual multiplied by 1e6 must be "
-              "rejected), LAPACK dgesdd as rank oracle, MatrixPreprocess as the definition of the preprocessed matrix (C10 checks it). Components are requested only "
-              "among singular values >= 1e-6 of the largest; TolAlg 1e-8, TolEig 4*sqrt(n*1e-10) relative + 1e-9*ss0.")
+TECHNIQUE = ("TLC model checking of the PCA variance ledger (Pca.tla / PcaStart.tla: ideal runs accepted incl. the classified premature stop on a start column orthogonal to the "
+             "dominant axis, seven injected faults rejected, classification theorems; output-object model: answers right for every prior content iff ResizeMatrix zero-fills, the "
+             "early-return variant refuted) + TLC trace validation of residual ledgers recorded from the real PCA/PCAScorePredictor/PCAIndVarPredictor/GetResidualMatrix on "
+             "sampled and class-stratified in-quantifier matrices, incl. exactly orthogonal designs, reused outputs and in-process histories (hooks H2, H4; rank and "
+             "dominant-eigenpair oracle LAPACK dgesdd)")
+LEVEL_TEXT = ("Sampled inputs: random matrices inside the property's quantifier (all shape classes, all 7 scalings, every admissible npc, processor counts 1/2/3/5/16/24) plus "
+              "stratified input classes (n = p +- 1, single column, block and thread-slice boundaries for both MT kernels, column locations 1e6..1e8 x spread, all spreads at "
+              "0.02 / at 1e6 / per-column units with ill-conditioned minor components, non-representable constants and tied decimals, duplicate rows / columns, nine exactly "
+              "orthogonal designs, predictor outputs handed over empty / differently shaped / equally shaped and non-zero, histories of four fits in one process) are fitted "
+              "with the real library; the harness measures the residual of every stated identity in extended precision and TLC validates each recorded fit against the ledger "
+              "specification, evaluating orthonormality, projection, residual orthogonality, eigenvalue sign/order, the variance budget (Pythagoras), explained-variance "
+              "consistency, closure at full rank, re-projection (all and fewer components) and back-transformation (scanning the number of components into one output) at "
+              "every step. An inversion of the eigenvalue order is classified by TLC from the logged start-column / dominant-eigenpair data: premature stop of the documented "
+              "criterion (known finding) or violation.")
+LEVEL_NOTE = ("Exploration, not exhaustive. Trusts TLC, the harness's residual evaluation and quantisation (binding self-tests: a residual multiplied by 1e6, an eigenvalue "
+              "0.2 % off, a partial re-projection / scanned back-transformation residual, a well-started start column and an incoherent eigenvalue ratio on a classified "
+              "inversion, an unknown generator name must each be rejected), LAPACK dgesdd as rank and dominant-eigenpair oracle, MatrixPreprocess as the definition of the "
+              "preprocessed matrix (C10 checks it). Components are requested only among singular values >= 1e-6 of the largest; TolAlg 1e-8, TolEig 4*sqrt(n*1e-10) relative "
+              "+ 1e-9*ss0; back-transformation TolAlg + 4 ulp-representability of X (so it follows the location class K3). Classes the quantifier excludes (not generated): "
+              "K4 whole-input scales below spread 0.02 (the quantifier's floor) and non-constant columns with spread < 0.02; K9 cells equal to the missing-value code 99999999 "
+              "(the statement speaks of finite data, not of missing values; cells within 2 of the code are regenerated); K10 (no labels in PCA); K1 single row (n >= 2) and "
+              "npc > rank (C18); column scales inside the fit/apply guard zone [5e-4, 1.2e-2) (finding F9, C10). The history of the MODEL object (fit into a used model) is "
+              "outside the statement: EXTRA-FINDING only.")
 
 SEED_STRIDE = 7919
+KNOWN_START = "PCA:eigenvalue-order:start-orthogonal"
+KNOWN_SENT = "PCA:varexp:score-equals-missing-code"
+EXTRA_REFIT = "PCA:reuse:fit-into-used-model"
+EXTRA_RSQ = "PCA:PCARSquared"
+SAN_HIST = {"ASAN_OPTIONS": hrun.SAN_ENV["ASAN_OPTIONS"] + ":quarantine_size_mb=0"}      # freed models / outputs are handed out again at once: address reuse is real
 
+# classes that every run of the tier must have executed (measured by TLC: Pca!FitTags) - a missing one is an infrastructure failure, not a pass
+REQUIRED_CLASSES = [
+    "K1:tall", "K1:wide", "K1:square", "K1:n=p+-1", "K1:single-column", "K1:npc=1", "K1:1<npc<rank", "K1:npc=rank(closure)",
+    "K2:rows=4k", "K2:rows=4k+1", "K2:rows=4k-1", "K2:cols=4k", "K2:cols=4k+1", "K2:cols=4k-1", "K2:rows~32", "K2:cols=k*nproc+1", "K2:cols=k*nproc-1",
+    "K2:rows=k*nproc+1", "K2:rows=k*nproc-1",
+    "K3:offset/sdev~1e6", "K3:offset/sdev~1e7", "K3:offset/sdev~1e8", "K3:offset/sdev~1e6-uncentred", "K3:score-equals-missing-code"] + ["K3:offset>=1e6-scaling%d" % s for s in range(-1, 6)] + [
+    "K4:all-spreads-at-floor-0.02", "K4:all-spreads>=1e5", "K4:column-units-4+decades-apart", "K4:ill-conditioned-minor-components",
+    "K5:tied-decimals", "K5:constant-column-non-representable",
+    "K6:nproc1", "K6:nproc2", "K6:nproc3", "K6:nproc5", "K6:nproc16", "K6:nproc24", "K6:cols<nproc", "K6:rows<nproc", "K6:cols-ragged-last-slice", "K6:rows-ragged-last-slice",
+    "K6:cols-idle-worker", "K6:rows-idle-worker",
+    "K7:outputs-rmode0", "K7:outputs-rmode1", "K7:outputs-rmode2", "K7:history-fit1", "K7:history-fit2", "K7:history-fit3", "K7:history-fit4",
+    "K8:constant-column", "K8:rank-deficient", "K8:exactly-orthogonal-design", "K8:integer-ties", "K8:duplicate-rows", "K8:duplicate-columns"] + [
+    "K8:design%d-scaling%d" % (d, s) for d in range(9) for s in (0, 4)]
+
+
+def _q12(v):
+    """a logged residual (1e-12 units, saturating at 2e9) as text"""
+    return ">= 2e-3 (saturated)" if v >= 2000000000 else "%.3g" % (v * 1e-12)
 
 
 def ceil_sqrt(x):
@@ -54,15 +125,18 @@ def _name_failure(fit, st, ev):
     if e == "Extract":
         for f, nm in (("ortho", "orthonormal-loadings"), ("proj", "score-projection"), ("recon", "reconstruction"), ("rorth", "residual-orthogonality")):
             if ev[f] > 10000:
-                return nm, "component %d: %s residual %.3g > 1e-8" % (ev["k"], f, ev[f] * 1e-12)
+                return nm, "component %d: %s residual %s > 1e-8" % (ev["k"], f, _q12(ev[f]))
         if ev["eval"] < 0:
             return "eigenvalue-sign", "component %d: eigenvalue negative" % ev["k"]
-        if ev["eval"] > st["last"] + tol_eig(n, st["last"]):
-            return "eigenvalue-order", "component %d: eigenvalue %.6g of ss0 exceeds the previous one %.6g (tolerance %.3g)" % (
-                ev["k"], ev["eval"] * 1e-9, st["last"] * 1e-9, tol_eig(n, st["last"]) * 1e-9)
         if abs((st["ssLeft"] - ev["eval"]) - ev["resid"]) > tol_eig(n, ev["eval"]) or ev["resid"] < -3:
             return "variance-budget", "component %d: |E_k|^2/ss0 = %.9g but budget %.9g - eigenvalue %.9g (tolerance %.3g)" % (
                 ev["k"], ev["resid"] * 1e-9, st["ssLeft"] * 1e-9, ev["eval"] * 1e-9, tol_eig(n, ev["eval"]) * 1e-9)
+        if ev["eval"] > st["last"] + tol_eig(n, st["last"]):
+            p = st.get("prev") or {}
+            return "eigenvalue-order", ("component %d: eigenvalue %.6g of ss0 exceeds the previous one %.6g (tolerance %.3g); the previous component did NOT start orthogonal to the "
+                                        "dominant axis (cos^2 %.3g, eigenvalue ratio %.6f): not the premature stop of the documented criterion") % (
+                ev["k"], ev["eval"] * 1e-9, st["last"] * 1e-9, tol_eig(n, st["last"]) * 1e-9,
+                (p.get("sc12", 0) * 1e-12 if p.get("sc12", 0) < 2000000000 else p.get("sc9", 0) * 1e-9), p.get("r9", 0) * 1e-9)
         if ev.get("k") != st["k"] + 1 or st["k"] >= fit["npc"]:
             return "component-count", "component index %s after %d extractions (npc=%d)" % (ev.get("k"), st["k"], fit["npc"])
     if e == "Finish":
@@ -73,35 +147,49 @@ def _name_failure(fit, st, ev):
             if v < 0 or abs(v - evs[i]) > tol_eig(n, evs[i]):
                 return "varexp-eigenvalue", "component %d: explained variance %.9g vs t't/ss0 %.9g (tolerance %.3g)" % (i + 1, v * 1e-9, evs[i] * 1e-9, tol_eig(n, evs[i]) * 1e-9)
         for i in range(1, len(ve)):
-            if ve[i] > ve[i - 1] + tol_eig(n, ve[i - 1]):
-                return "varexp-order", "explained variance %d (%.6g %%) exceeds the previous one (%.6g %%)" % (i + 1, ve[i] * 1e-7, ve[i - 1] * 1e-7)
+            if ve[i] > ve[i - 1] + tol_eig(n, ve[i - 1]) and not evs[i] > evs[i - 1]:
+                return "varexp-order", "explained variance %d (%.6g %%) exceeds the previous one (%.6g %%) although the eigenvalues are in order" % (i + 1, ve[i] * 1e-7, ve[i - 1] * 1e-7)
         st_tol = sum(tol_eig(n, x) for x in evs)
         if sum(ve) > 10 ** 9 + st_tol:
             return "varexp-sum", "explained variances sum to %.7f %% > 100" % (sum(ve) * 1e-7)
         if fit["npc"] == fit["rank"] and fit["tail"] == 0:
             if st["ssLeft"] > 3 or abs(sum(ve) - 10 ** 9) > st_tol:
                 return "full-rank-closure", "all components taken: residual %.3g of ss0, explained variances sum to %.7f %%" % (st["ssLeft"] * 1e-9, sum(ve) * 1e-7)
-    if e == "Project" and ev["err"] <= 10000 and ev.get("gr", 0) > 10000:
-        return "residual-matrix", "GetResidualMatrix differs from preprocessed data - scores x loadings^T by %.3g of |E0| > 1e-8" % (ev["gr"] * 1e-12)
-    if e == "Project" and ev["err"] > 10000:
-        return "reprojection", "projecting the training matrix: relative score error %.3g > 1e-8" % (ev["err"] * 1e-12)
-    if e == "Back" and ev["err"] > 10000 + 4 * min(ev.get("repr", 0), 100000):
-        return "back-transform", "back-transformation error %.3g of |E0| > 1e-8" % (ev["err"] * 1e-12)
+    how = " [outputs handed over %s]" % ("by the previous fit of an in-process history (fit %d)" % fit["h"] if fit.get("h") else
+                                          {0: "empty", 1: "with another shape, holding data", 2: "with the final shape, holding data"}.get(fit.get("rmode"), "?"))
+    if e == "Project":
+        if ev["err"] > 10000:
+            return "reprojection", "projecting the training matrix: relative score error %s > 1e-8%s" % (_q12(ev["err"]), how)
+        if ev.get("part", 0) > 10000:
+            return "reprojection", "projecting the training matrix with fewer components into the output of the previous call: relative score error %s > 1e-8%s" % (_q12(ev["part"]), how)
+        if ev.get("gr", 0) > 10000:
+            return "residual-matrix", "GetResidualMatrix differs from preprocessed data - scores x loadings^T by %s of |E0| > 1e-8%s" % (_q12(ev["gr"]), how)
+    if e == "Back":
+        lim = 10000 + 4 * min(ev.get("repr", 0), 100000)
+        if ev["err"] > lim:
+            return "back-transform", "back-transformation error %s of |E0| > %.3g%s" % (_q12(ev["err"]), lim * 1e-12, how)
+        if ev.get("scan", 0) > lim:
+            return "back-transform", "back-transformation with fewer components (scan of the number of components into one output): error %s of |E0| > %.3g%s" % (_q12(ev["scan"]), lim * 1e-12, how)
     return "ledger", "event %s rejected by the ledger" % ev
 
 
 def _replay_state(block, idx_ev):
     """ledger state just before block[idx_ev] (python mirror for naming/messages only)"""
-    fit, st = None, dict(k=0, ssLeft=10 ** 9, last=10 ** 9, evals=[])
+    fit, st = None, dict(k=0, ssLeft=10 ** 9, last=10 ** 9, evals=[], prev=None)
     for e in block[:idx_ev]:
         if e["e"] == "Fit":
-            fit, st = e, dict(k=0, ssLeft=10 ** 9, last=10 ** 9, evals=[])
+            fit, st = e, dict(k=0, ssLeft=10 ** 9, last=10 ** 9, evals=[], prev=None)
         elif e["e"] == "Extract":
             st["k"] += 1
             st["ssLeft"] = e["resid"]
             st["last"] = e["eval"]
             st["evals"].append(e["eval"])
+            st["prev"] = e
     return fit, st
+
+
+FAULTS = ["no_deflation", "eval_scaled", "order_swapped", "ss_times_n", "early_finish"]
+FAULTS2 = ["wellstarted_swap", "incoherent_ratio"]
 
 
 def _model_checks(ctx):
@@ -118,20 +206,140 @@ def _model_checks(ctx):
     rd = tlc.rundir()
     try:
         base = open(os.path.join(tlc.SPEC, "MC_Pca_quick.cfg")).read()
-        faults = ["no_deflation", "eval_scaled", "order_swapped", "ss_times_n", "early_finish"]
+        base2 = open(os.path.join(tlc.SPEC, "MC_Pca2_quick.cfg" if ctx.quick else "MC_Pca2_thorough.cfg")).read()
+        baseo = open(os.path.join(tlc.SPEC, "MC_PcaOut.cfg")).read()
 
         def one(f):
             p = os.path.join(rd, "fault_%s.cfg" % f)
-            open(p, "w").write(base.replace('Fault = "none"', 'Fault = "%s"' % f))
-            return f, tlc.run("Pca", p, timeout=600, workers=2, coverage=False)
+            if f in FAULTS:
+                open(p, "w").write(base.replace('Fault = "none"', 'Fault = "%s"' % f))
+                return f, tlc.run("Pca", p, timeout=600, workers=2, coverage=False)
+            if f in FAULTS2:
+                open(p, "w").write(open(os.path.join(tlc.SPEC, "MC_Pca2_quick.cfg")).read().replace('Fault2 = "none"', 'Fault2 = "%s"' % f))
+                return f, tlc.run("PcaStart", p, timeout=600, workers=2, coverage=False)
+            if f == "start_model":
+                return f, tlc.run("PcaStart", os.path.join(tlc.SPEC, "MC_Pca2_quick.cfg" if ctx.quick else "MC_Pca2_thorough.cfg"), timeout=1500, workers=4)
+            if f == "outputs":
+                return f, tlc.run("PcaStart", os.path.join(tlc.SPEC, "MC_PcaOut.cfg"), timeout=600, workers=2)
+            if f == "waiver_reachable":
+                return f, tlc.run("PcaStart", os.path.join(tlc.SPEC, "MC_Pca2_waiver.cfg"), timeout=600, workers=2, coverage=False)
+            open(p, "w").write(baseo.replace("ResizeZeroes = TRUE", "ResizeZeroes = FALSE"))
+            return f, tlc.run("PcaStart", p, timeout=600, workers=2, coverage=False)
         with ThreadPoolExecutor(5) as ex:
-            for f, rf in ex.map(one, faults):
-                ctx.add_tlc(rf, "mc_pca_fault_%s" % f)
-                if rf.ok or rf.violation != "LedgerAccepts":
+            for f, rf in ex.map(one, FAULTS + FAULTS2 + ["start_model", "outputs", "outputs_early_return", "waiver_reachable"]):
+                ctx.add_tlc(rf, "mc_pca_%s" % f if f in ("start_model", "outputs", "outputs_early_return", "waiver_reachable") else "mc_pca_fault_%s" % f)
+                if f == "start_model":
+                    if not rf.ok:
+                        raise InfraError("PcaStart.tla: the ledger with the classified waiver rejects an ideal run with premature stops, or a classification theorem fails (%s):\n%s" % (rf.violation, rf.trace_text[:1500]))
+                    z = rf.zero_actions(ignore=("LInit", "SInit", "Action", "OInit", "PInit0", "MInit2"))
+                    if z:
+                        raise InfraError("PcaStart.tla model: actions never taken (vacuous): %s" % z)
+                    ctx.note("start-column model: %d states; ideal runs with premature stops on orthogonal start columns accepted through the classified waiver, theorems hold" % rf.distinct)
+                elif f == "outputs":
+                    if not rf.ok:
+                        raise InfraError("PcaStart.tla Outputs model: an answer depends on the previous content of the output although ResizeMatrix zero-fills (%s):\n%s" % (rf.violation, rf.trace_text[:1500]))
+                    z = rf.zero_actions(ignore=("LInit", "SInit", "Action", "OInit", "PInit0", "MInit2"))
+                    if z:
+                        raise InfraError("PcaStart.tla Outputs model: actions never taken (vacuous): %s" % z)
+                    ctx.note("output-object model: %d states; every answer right whatever the output held before (ResizeMatrix zero-fills)" % rf.distinct)
+                elif f == "waiver_reachable":
+                    if rf.ok or rf.violation != "NoWaiver":
+                        raise InfraError("PcaStart.tla: no run of the start-column model uses the classified waiver (vacuous classification)")
+                elif f == "outputs_early_return":
+                    if rf.ok or rf.violation != "AnswersRight":
+                        raise InfraError("PcaStart.tla Outputs model: the early-return variant of ResizeMatrix is not refuted (model does not distinguish the variants)")
+                elif rf.ok or rf.violation != ("LedgerAccepts" if f in FAULTS else "LedgerAccepts2"):
                     raise InfraError("Pca.tla: injected fault %s is not rejected by the ledger (vacuous ledger)" % f)
-        ctx.note("ledger model: faults %s each rejected (LedgerAccepts violated as required)" % ", ".join(faults))
+        ctx.note("ledger model: faults %s each rejected; ResizeMatrix early-return variant refuted (AnswersRight violated as required)" % ", ".join(FAULTS + FAULTS2))
     finally:
         shutil.rmtree(rd, ignore_errors=True)
+
+
+# ---------------------------------------------------------------- stratified case lists (inputs only; every judgement is TLC's)
+K12_SHAPES = [(2, 1), (12, 1), (60, 1), (3, 2), (2, 3), (9, 10), (10, 9), (24, 25), (25, 24), (2, 2), (25, 25), (32, 4), (31, 8), (33, 16), (60, 25), (59, 24),
+              (16, 17), (17, 16), (4, 25), (5, 4), (8, 9), (2, 25), (60, 2), (13, 12)]
+MT_SHAPES = {2: [(5, 7), (7, 5), (3, 2), (9, 1)], 3: [(7, 4), (4, 7), (8, 10), (10, 8), (2, 5)], 5: [(4, 6), (6, 4), (11, 9), (9, 11), (14, 16), (16, 14)],
+             16: [(17, 15), (15, 17), (33, 2), (3, 17), (31, 15)], 24: [(25, 23), (23, 25), (49, 3), (3, 25), (47, 2)]}
+MT_SHAPES_THOROUGH = {2: [(59, 25), (3, 25)], 3: [(59, 22), (5, 25)], 5: [(59, 24), (21, 19), (19, 21), (4, 24)], 16: [(47, 17), (49, 15), (15, 25), (60, 16)], 24: [(47, 25), (49, 23), (23, 24), (60, 24)]}
+
+
+def _case_lists(ctx):
+    """-> list of (label, [lines]) for `c01_drv cases`; a line = the arguments of one `case` / `hist` command"""
+    s = ctx.seed & 0xFFFFF
+    q = ctx.quick
+    groups = []
+    reps = 1 if q else 6
+
+    def ms(i):
+        return (s * 7919 + i * 104729 + 17) & 0x3FFFFFFF
+    # K1 / K2: shape relations and block boundaries, one processor
+    lines, i = [], 0
+    for rep in range(reps):
+        for (n, c) in K12_SHAPES:
+            for npc in (0, -1):
+                i += 1
+                lines.append("case rnd 0 %d %d %d %d %d 1" % (ms(i), n, c, (i % 7) - 1, npc))
+    groups.append(("k12", lines))
+    # K3 locations, K4 magnitudes, K5 non-representable constants: every scaling option
+    lines = []
+    shp = [(9, 4), (6, 11), (30, 7), (7, 7), (16, 5), (5, 16), (41, 3)]
+    for rep in range(reps):
+        for gp in ((6, 7, 8) if q else (3, 4, 5, 6, 7, 8)):
+            for sc in range(-1, 6):
+                i += 1
+                n, c = shp[(i + gp) % len(shp)]
+                lines.append("case loc %d %d %d %d %d %d 1" % (gp, ms(i), n, c, sc, 0 if i % 3 else -1))
+    groups.append(("k3", lines))
+    lines = []
+    for rep in range(reps):
+        for gp in (0, 1, 2):
+            for sc in range(-1, 6):
+                i += 1
+                n, c = shp[(i + gp) % len(shp)]
+                lines.append("case mag %d %d %d %d %d 0 1" % (gp, ms(i), n, c, sc))
+        for gp in (0, 1):
+            for sc in range(-1, 6):
+                i += 1
+                n, c = shp[(i + 2 * gp) % len(shp)]
+                lines.append("case k5 %d %d %d %d %d %d 1" % (gp, ms(i), n, c, sc, 0 if i % 2 else -1))
+    groups.append(("k45", lines))
+    # K8: exactly orthogonal designs (literal with scalings 0 and 4 - the known-finding witnesses are designs 0 and 1 -, unit / offset variants, every other scaling) and integer ties / duplicates
+    lines = []
+    for d in range(9):
+        lines.append("case design %d 0 0 0 0 0 1" % d)
+        lines.append("case design %d 0 0 0 4 0 1" % d)
+        for rep in range(reps):
+            i += 1
+            lines.append("case design %d %d 0 0 0 2 1" % (d, ms(i)))
+            lines.append("case design %d %d 0 0 4 0 %d" % (d, ms(i) + 1, 1 if d % 3 else 2))
+            lines.append("case design %d %d 0 0 %d 0 1" % (d, ms(i) + 2, (1, 2, 3, 5, -1)[(d + rep) % 5]))
+    for rep in range(reps):
+        for gp in (1, 2, 3):
+            for sc in range(-1, 6):
+                i += 1
+                n, c = shp[(i + gp) % len(shp)]
+                lines.append("case dup %d %d %d %d %d %d 1" % (gp, ms(i), n, c, sc, 0 if i % 2 else -1))
+    lines.append("case sent 0 5 4 2 -1 0 1")
+    lines.append("case sent 0 9 7 3 -1 0 1")
+    groups.append(("k8", lines))
+    # K6: thread-slice boundaries of BOTH kernels (t'E sliced over the columns, E p over the rows): fewer items than workers, k nproc +- 1
+    for npr in (2, 3, 5, 16, 24):
+        lines = []
+        for (n, c) in MT_SHAPES[npr] + ([] if q else MT_SHAPES_THOROUGH[npr]):
+            i += 1
+            lines.append("case rnd 0 %d %d %d %d %d %d" % (ms(i), n, c, (i % 7) - 1, 3 if npr >= 16 else 0, npr))
+        if npr <= 5:
+            i += 1
+            lines.append("case design %d %d 0 0 %d 0 %d" % (i % 9, ms(i), (0, 4)[i % 2], npr))
+            lines.append("hist %d %d" % (ms(i) + 5, npr))
+        groups.append(("k6_%d" % npr, lines))
+    # K7: in-process histories (four fits, reused addresses and outputs, refit into a used model)
+    lines = []
+    for h in range(8 if q else 60):
+        i += 1
+        lines.append("hist %d 1" % ms(i))
+    groups.append(("k7", lines))
+    return groups
 
 
 def _jobs(ctx, rd):
@@ -139,24 +347,28 @@ def _jobs(ctx, rd):
     if ctx.quick:
         plan = [(s + i * SEED_STRIDE, 60, 1, "all") for i in range(5)]
         plan += [(s + 101, 12, 2, "all"), (s + 102, 12, 3, "all"), (s + 103, 14, 16, "small"), (s + 104, 14, 24, "small"),
-                 (s + 105, 2, 16, "all"), (s + 106, 2, 24, "all")]
+                 (s + 105, 2, 16, "all"), (s + 106, 2, 24, "all"), (s + 107, 6, 5, "all")]
     else:
         plan = [(s + i * SEED_STRIDE, 1000, 1, "all") for i in range(20)]
-        plan += [(s + 101 + i, 60, 2, "all") for i in range(2)] + [(s + 111 + i, 60, 3, "all") for i in range(2)]
+        plan += [(s + 101 + i, 60, 2, "all") for i in range(2)] + [(s + 111 + i, 60, 3, "all") for i in range(2)] + [(s + 116 + i, 40, 5, "all") for i in range(2)]
         plan += [(s + 121 + i, 16, 16, "all") for i in range(3)] + [(s + 131 + i, 16, 24, "all") for i in range(3)]
         plan += [(s + 141, 120, 16, "small"), (s + 142, 120, 24, "small")]
-    return [[os.path.join(rd, "c01_%d.ndjson" % i), "sweep", sd & 0x3FFFFFFF, cnt, nproc, cls] for i, (sd, cnt, nproc, cls) in enumerate(plan)]
+    jobs = [[os.path.join(rd, "c01_%d.ndjson" % i), "sweep", sd & 0x3FFFFFFF, cnt, nproc, cls] for i, (sd, cnt, nproc, cls) in enumerate(plan)]
+    for label, lines in _case_lists(ctx):
+        p = os.path.join(rd, "cases_%s.txt" % label)
+        open(p, "w").write("\n".join(lines) + "\n")
+        jobs.append([os.path.join(rd, "c01_%s.ndjson" % label), "cases", p])
+    return jobs
 
 
 def _record(ctx, exe, jobs, timeout):
-    res = hrun.run_many(exe, jobs, timeout=timeout, workers=6)
+    res = hrun.run_many(exe, jobs, timeout=timeout, workers=6, env=SAN_HIST)
     chunks = []
     for j, h in zip(jobs, res):
         ev = [e for e in hrun.read_ndjson(j[0])]
         if h.san:
             last = next((e for e in reversed(ev) if e.get("e") == "Fit"), {})
-            ctx.violation("PCA:%s" % h.san, "sanitizer report while fitting %s:\n%s" % (last, h.err[:1500]),
-                          dict(kind="model", **{k: last.get(k) for k in ("seed", "n", "c", "scaling", "npc", "nproc")}))
+            ctx.violation("PCA:%s" % h.san, "sanitizer report while fitting %s:\n%s" % (last, h.err[:1500]), _case_of(last))
         if h.timed_out:
             raise InfraError("c01 harness timed out: %s" % j[1:])
         if h.rc != 0 and not h.san:
@@ -172,23 +384,35 @@ def _record(ctx, exe, jobs, timeout):
     return chunks
 
 
+def _case_of(fit):
+    if not fit:
+        return None
+    if fit.get("h"):
+        return dict(kind="hist", hs=fit.get("hs"), nproc=fit.get("nproc"), member=fit.get("h"))
+    return dict(kind="model", gen=fit.get("gen", "rnd"), gp=fit.get("gp", 0), seed=fit.get("seed"), n=fit.get("n"), c=fit.get("c"), scaling=fit.get("scaling"),
+                npc=fit.get("npc"), nproc=fit.get("nproc"))
+
+
 def _account(ctx, chunks):
     nfit = ndrop = 0
     worst = {}
     for ev in chunks:
-        fit = None
         for e in ev:
             if e["e"] == "Fit":
-                fit = e
                 nfit += 1
-                ctx.case((e["n"], e["c"], e["scaling"], e["npc"], e["nproc"]), e["npc"] >= 2 or e["c"] > e["n"])
+                ctx.case((e["gen"], e["gp"], e["n"], e["c"], e["scaling"], e["npc"], e["nproc"], e["rmode"], e["h"]), e["npc"] >= 2 or e["c"] > e["n"])
             elif e["e"] == "Dropped":
                 ndrop += 1
             elif e["e"] == "Extract":
                 for f in ("ortho", "proj", "recon", "rorth", "dmodx"):
                     worst[f] = max(worst.get(f, 0), e[f])
-            elif e["e"] in ("Project", "Back"):
-                worst[e["e"].lower()] = max(worst.get(e["e"].lower(), 0), e["err"])
+            elif e["e"] == "Project":
+                for f, nm in (("err", "project"), ("part", "project_part"), ("gr", "residual_matrix")):
+                    worst[nm] = max(worst.get(nm, 0), e[f])
+            elif e["e"] == "Back":
+                worst["back"] = max(worst.get("back", 0), e["err"])
+                worst["back_scan"] = max(worst.get("back_scan", 0), e["scan"])
+                worst["back_minus_4repr"] = max(worst.get("back_minus_4repr", 0), max(e["err"], e["scan"]) - 4 * min(e["repr"], 100000))
     if nfit == 0:
         raise InfraError("c01 harness produced no Fit events")
     # vacuity: every antecedent of the ledger must occur in the recording
@@ -197,8 +421,13 @@ def _account(ctx, chunks):
                    wide=sum(1 for e in fits if e["shape"] == "wide"), tall=sum(1 for e in fits if e["shape"] == "tall"), square=sum(1 for e in fits if e["shape"] == "square"))
     for sc in range(-1, 6):
         classes["scaling_%d" % sc] = sum(1 for e in fits if e["scaling"] == sc)
-    for npr in (1, 2, 3, 16, 24):
+    for npr in (1, 2, 3, 5, 16, 24):
         classes["nproc_%d" % npr] = sum(1 for e in fits if e["nproc"] == npr)
+    for g in ("rnd", "loc", "mag", "k5", "design", "dup"):
+        classes["gen_%s" % g] = sum(1 for e in fits if e["gen"] == g)
+    classes["refit_events"] = sum(1 for ev in chunks for e in ev if e["e"] == "Refit")
+    classes["pcarsquared_events"] = sum(1 for ev in chunks for e in ev if e["e"] == "RSq")
+    classes["scanned_back_transformations"] = sum(1 for ev in chunks for e in ev if e["e"] == "Back" and e["scan"] > 0)
     ctx.steps["classes"] = classes
     missing = [k for k, v in classes.items() if v == 0]
     if missing:
@@ -208,7 +437,35 @@ def _account(ctx, chunks):
     return nfit, ndrop
 
 
+class _Tap:
+    """forwards to the check context and keeps the "@@" reports of every TLC run that check_trace makes"""
+    def __init__(self, ctx):
+        self._c, self.emits = ctx, []
+
+    def add_tlc(self, r, label=None):
+        self.emits += list(r.emits)
+        self._c.add_tlc(r, label)
+
+    def __getattr__(self, a):
+        return getattr(self._c, a)
+
+
+def _balance(chunks, k):
+    """blocks are independent (each starts from Reset): pack the recordings into k traces of similar length - one JVM start per trace"""
+    bins = [[] for _ in range(k)]
+    for ch in sorted(chunks, key=len, reverse=True):
+        min(bins, key=len).extend(ch)
+    return [b for b in bins if b]
+
+
 def _validate(ctx, chunks, label, max_rounds):
+    chunks = _balance(chunks, 6 if ctx.quick else 30) if len(chunks) > 6 else chunks
+    fits = {}
+    for ev in chunks:
+        for e in ev:
+            if e["e"] == "Fit":
+                fits.setdefault(e["seed"], e)
+
     def on_reject(ev, idx, block):
         i = next((q for q, e in enumerate(block) if e is ev), len(block) - 1)
         fit, st = _replay_state(block, i)
@@ -216,21 +473,83 @@ def _validate(ctx, chunks, label, max_rounds):
         nm, what = _name_failure(fit, st, ev) if fit else ("ledger", "event %s outside a fit" % ev)
         shape = fit.get("shape", "?")
         sig = "PCA:%s:%s:%s" % (nm, fit.get("scaling", "?"), shape)
-        ctx.violation(sig, "n=%s c=%s scaling=%s npc=%s rank=%s nproc=%s seed=%s: %s" % (
-            fit.get("n"), fit.get("c"), fit.get("scaling"), fit.get("npc"), fit.get("rank"), fit.get("nproc"), fit.get("seed"), what),
-            dict(kind="model", seed=fit.get("seed"), n=fit.get("n"), c=fit.get("c"), scaling=fit.get("scaling"), npc=fit.get("npc"), nproc=fit.get("nproc"),
-                 event=ev))
+        case = _case_of(fit) or {}
+        case["event"] = ev
+        ctx.violation(sig, "gen=%s/%s n=%s c=%s scaling=%s npc=%s rank=%s nproc=%s seed=%s%s: %s" % (
+            fit.get("gen"), fit.get("gp"), fit.get("n"), fit.get("c"), fit.get("scaling"), fit.get("npc"), fit.get("rank"), fit.get("nproc"), fit.get("seed"),
+            (" history=%s fit %s" % (fit.get("hs"), fit.get("h"))) if fit.get("h") else "", what), case)
 
     def one(args):
         i, ev = args
-        return trace.check_trace(ctx, "TracePca", "Trace_Pca.cfg", "Trace_Pca_prop.cfg", ev, on_reject, drop="block", max_rounds=max_rounds,
-                                 label="%s_%d" % (label, i), timeout=1500)
+        tap = _Tap(ctx)
+        rej = trace.check_trace(tap, "TracePca", "Trace_Pca.cfg", "Trace_Pca_prop.cfg", ev, on_reject, drop="block", max_rounds=max_rounds,
+                                label="%s_%d" % (label, i), timeout=1500)
+        return rej, tap.emits
     with ThreadPoolExecutor(6) as ex:
-        rej = list(ex.map(one, list(enumerate(chunks))))
-    return sum(rej)
+        out = list(ex.map(one, list(enumerate(chunks))))
+    seen = set()
+    nknown = 0
+    for _, emits in out:
+        for m in emits:
+            if "cls" in m:
+                key = ("cls", m["seed"], m["gen"], m["gp"], m["n"], m["c"], m["scaling"], m["npc"], m["nproc"], m["h"])
+                if key not in seen:
+                    seen.add(key)
+                    for t in m["cls"]:
+                        ctx.cls(t)
+            elif "known" in m:
+                key = ("known", m["known"], m["fs"], m["k"], m["n"], m["c"], m["scaling"], m["npc"])
+                if key in seen:
+                    continue
+                seen.add(key)
+                nknown += 1
+                fit = fits.get(m["fs"], {})
+                if m["known"] == "start-orthogonal":
+                    ctx.violation(KNOWN_START, "gen=%s/%s n=%s c=%s scaling=%s npc=%s seed=%s: component %d carries eigenvalue %.6g of ss0 > %.6g of component %d, which started from a "
+                                  "column with cos^2 %.3g to the dominant axis (eigenvalue ratio %.6f) and was stopped by the documented criterion before the dominant axis grew" % (
+                                      fit.get("gen"), fit.get("gp"), m["n"], m["c"], m["scaling"], m["npc"], m["fs"], m["k"], m["eval"] * 1e-9, m["prev"] * 1e-9, m["k"] - 1,
+                                      m["sc12"] * 1e-12, m["r9"] * 1e-9), _case_of(fit))
+                else:
+                    ctx.violation(KNOWN_SENT, "gen=%s/%s n=%s c=%s scaling=%s npc=%s seed=%s: a computed score lies within 0.1 of the missing-value code 99999999 and is dropped from "
+                                  "t't: explained variances %s vs eigenvalues %s (1e-9 of ss0)" % (fit.get("gen"), fit.get("gp"), m["n"], m["c"], m["scaling"], m["npc"], m["fs"],
+                                                                                                   m.get("varexp"), m.get("evals")), _case_of(fit))
+            elif "extra" in m:
+                key = ("extra", m["extra"], m["fs"])
+                if key in seen:
+                    continue
+                seen.add(key)
+                if m["extra"] == "PCARSquared":
+                    if m["died"]:
+                        ctx.extra(EXTRA_RSQ + (":abort-uncentred-model" if m["scaling"] == -1 else ":died"),
+                                  "PCARSquared() on a model fitted with scaling %d did not return (rc %s%s; seed %s, npc %d)" % (
+                                      m["scaling"], m["died"], ": a model fitted without centring stores no column averages and getDVectorValue(colaverage, j) aborts; candidate repair "
+                                      "fixes/C01-pcarsquared-no-averages.diff" if m["scaling"] == -1 else "", m["fs"], m["npc"]))
+                    else:
+                        ctx.extra(EXTRA_RSQ + ":value", "PCARSquared() returned %d values for npc = %d, worst deviation from 1 - |X - back-transformation|^2 / |X - means|^2: %s (seed %s)" % (
+                            m["len"], m["npc"], _q12(m["err"]), m["fs"]))
+                else:
+                    ctx.extra(EXTRA_REFIT, "PCA() into a PCAMODEL that already holds a fit of other data of the same shape differs from the fit into a fresh model: varexp has %d entries "
+                              "for npc = %d, scores differ by %s (relative), loadings by %s%s (seed %s; candidate repair fixes/C02-pca-refit-used-model.diff)" % (
+                                  m["vlen"], m["npc"], _q12(m["terr"]), _q12(m["perr"]), ", the refit died (rc %s)" % m["died"] if m["died"] else "", m["fs"]))
+    ctx.steps["%s_known_finding_instances" % label] = nknown
+    return sum(r for r, _ in out)
 
 
 def _binding(ctx, chunks):
+    pool = ThreadPoolExecutor(4)
+    futs = []
+
+    def selftest(*a):
+        futs.append(pool.submit(trace.binding_selftest, *a))
+    try:
+        _binding_body(ctx, chunks, selftest)
+        for f in futs:
+            f.result()
+    finally:
+        pool.shutdown(wait=True)
+
+
+def _binding_body(ctx, chunks, selftest):
     blocks = [b for ch in chunks[:3] for b in tlc.split_blocks(ch) if any(e["e"] == "Back" for e in b)][:20]
     ev = [e for b in blocks for e in b]
     if not any(e["e"] == "Extract" for e in ev) and ctx.violations:
@@ -243,7 +562,7 @@ def _binding(ctx, chunks):
                 e["ortho"] = min(2000000000, max(1, e["ortho"]) * 1000000)      # one logged residual multiplied by 1e6
                 return True
         return False
-    trace.binding_selftest(ctx, "TracePca", "Trace_Pca_prop.cfg", ev, corrupt, "binding_residual_x1e6")
+    selftest(ctx, "TracePca", "Trace_Pca_prop.cfg", ev, corrupt, "binding_residual_x1e6")
 
     def corrupt2(evs):
         for e in evs:
@@ -251,16 +570,77 @@ def _binding(ctx, chunks):
                 e["eval"] = e["eval"] - e["eval"] // 500                      # eigenvalue 0.2 % off: the budget identity must notice
                 return True
         return False
-    trace.binding_selftest(ctx, "TracePca", "Trace_Pca_prop.cfg", ev, corrupt2, "binding_budget")
+    selftest(ctx, "TracePca", "Trace_Pca_prop.cfg", ev, corrupt2, "binding_budget")
+
+    def field(kind, f, val):
+        def c(evs):
+            for e in evs:
+                if e["e"] == kind:
+                    e[f] = val(e[f]) if callable(val) else val
+                    return True
+            return False
+        return c
+    # the fields added in round 3: partial re-projection, scanned back-transformation, generator name
+    selftest(ctx, "TracePca", "Trace_Pca_prop.cfg", ev, field("Project", "part", lambda v: min(2000000000, max(1, v) * 1000000 + 20000)), "binding_project_part")
+    selftest(ctx, "TracePca", "Trace_Pca_prop.cfg", ev, field("Back", "scan", 1500000), "binding_back_scan")
+    selftest(ctx, "TracePca", "Trace_Pca_prop.cfg", ev, field("Fit", "gen", "other"), "binding_fit_generator")
+    # the classification of an order inversion: on the recorded witness (design 0, literal) the waiver must NOT apply when the start column is well started,
+    # nor when the logged eigenvalue ratio does not explain the later eigenvalue
+    wit = next((b for ch in chunks for b in tlc.split_blocks(ch) if any(e["e"] == "Fit" and e["gen"] == "design" and e["gp"] == 0 and e["seed"] == 0 and e["scaling"] == 0 for e in b)
+                and any(e["e"] == "Back" for e in b)), None)
+    if wit is None:
+        if ctx.violations:
+            return
+        raise InfraError("the literal 8 x 3 witness design was not recorded")
+
+    def well_started(evs):
+        for e in evs:
+            if e["e"] == "Extract" and e["k"] == 1:
+                e["sc12"], e["sc9"] = 2000000000, 400000000
+                return True
+        return False
+
+    def incoherent(evs):
+        for e in evs:
+            if e["e"] == "Extract" and e["k"] == 1:
+                e["r9"] = 999000000
+                return True
+        return False
+    # one trace: the witness block followed by extra events (outside the statement: never rejected) - a right PCARSquared / refit passes silently, a wrong one is reported
+    t = list(wit) + [dict(e="RSq", fs=0, err=5, repr=1, len=2, npc=2, scaling=0, died=0), dict(e="RSq", fs=1, err=50000, repr=1, len=2, npc=2, scaling=0, died=0),
+                     dict(e="Refit", fs=2, terr=0, perr=0, vlen=2, npc=2, died=0), dict(e="Refit", fs=3, terr=0, perr=0, vlen=4, npc=2, died=0)]
+    ok, _, r = tlc.validate_trace("TracePca", "Trace_Pca_prop.cfg", t)
+    ctx.add_tlc(r, "binding_known_witness_and_extras")
+    if ok and not any(m.get("known") == "start-orthogonal" for m in r.emits):
+        ctx.note("the 8 x 3 witness no longer shows the order inversion on this tree (known finding %s not reproduced)" % KNOWN_START)
+    elif ok:
+        selftest(ctx, "TracePca", "Trace_Pca_prop.cfg", wit, well_started, "binding_known_well_started")
+        selftest(ctx, "TracePca", "Trace_Pca_prop.cfg", wit, incoherent, "binding_known_incoherent_ratio")
+    if ok:
+        got = sorted((m["extra"], m["fs"]) for m in r.emits if "extra" in m)
+        if got != [("PCARSquared", 1), ("fit-into-used-model", 3)]:
+            raise InfraError("binding lost: extra events (right / wrong PCARSquared, right / wrong refit) reported as %s, expected the wrong ones only" % got)
+        ctx.steps["binding_extras"] = dict(ok=True, reported=got)
+    elif not ctx.violations:
+        raise InfraError("binding lost: the recorded witness followed by extra events is rejected (extras must never be rejected)")
+    # the second classified finding: explained variances below the eigenvalues are excused only while a stored score coincides with the missing-value code
+    sent = next((b for ch in chunks for b in tlc.split_blocks(ch) if any(e["e"] == "Fit" and e["gen"] == "sent" for e in b) and any(e["e"] == "Back" for e in b)), None)
+    if sent is not None:
+        oks, _, rs = tlc.validate_trace("TracePca", "Trace_Pca_prop.cfg", sent)
+        ctx.add_tlc(rs, "binding_sentinel_witness")
+        if oks and any(m.get("known") == "score-equals-missing-code" for m in rs.emits):
+            selftest(ctx, "TracePca", "Trace_Pca_prop.cfg", sent, field("Extract", "tm", 0), "binding_sentinel_no_score_at_code")
 
 
 def run(ctx):
     ctx.assumptions += [
-        "sampled inputs (seeded); no exhaustiveness claim: level exploration",
-        "the harness's residual evaluation (long double accumulation) and quantisation (1e-12 / 1e-9 units, saturating) are trusted; binding self-test multiplies a logged residual by 1e6 and insists on rejection",
+        "sampled and class-stratified inputs (seeded); no exhaustiveness claim: level exploration",
+        "the harness's residual evaluation (long double accumulation) and quantisation (1e-12 / 1e-9 units, saturating) are trusted; binding self-tests corrupt logged fields and insist on rejection",
         "E0 = MatrixPreprocess(X) is taken as the definition of the preprocessed matrix (checked by C10); rank = number of dgesdd singular values >= 1e-6 sigma_1 (LAPACK called directly by the harness)",
-        "inputs whose column scale falls in the fit/apply guard discrepancy zone [5e-4, 1.2e-2) (finding F9, owned by C10) are regenerated or dropped and counted",
+        "inputs whose column scale falls in the fit/apply guard discrepancy zone [5e-4, 1.2e-2) (finding F9, owned by C10) are regenerated or dropped and counted; so are cells within 2 of the missing-value code",
         "TolAlg = 1e-8 for algebraic identities; TolEig = 4*sqrt(n*1e-10) relative to the eigenvalue + 1e-9*ss0 (+2 units of quantisation) for quantities inheriting the stopping rule",
+        "an inversion of the eigenvalue order is the known finding only if TLC finds cos^2(start column, dominant axis) (1 - r)^2 <= 16 * 1e-10 * n * r^2 on the harness's dgesdd of its own deflated "
+        "matrix (r = returned / dominant eigenvalue) and the later eigenvalue <= the dominant one; otherwise it is a violation",
     ]
     _model_checks(ctx)
     lib = build.build_lib("san")
@@ -277,11 +657,15 @@ def run(ctx):
                 if shown < 3 and any(e["e"] == "Fit" and e["npc"] in (2, 3) for e in b):
                     ctx.sample(b)
                     shown += 1
-        ctx.cov["rule"] = ("random matrices inside the quantifier (2..60 x 1..25; tall/wide/square; column locations up to +-1e6, spreads 0.02..1e6 or exactly 0; "
-                           "scalings -1..5; npc 1..admissible rank; processor count 1,2,3,16,24) fitted by the real PCA(); one evaluation = one fitted model validated by TLC; "
-                           "distinct = distinct (n, c, scaling, npc, nproc); non-trivial = npc >= 2 or c > n")
+        ctx.cov["rule"] = ("matrices inside the quantifier (2..60 x 1..25; tall/wide/square; column locations up to 1e8 x spread, spreads 0.02..1e6 or exactly 0; scalings -1..5; npc 1..admissible "
+                           "rank; processor count 1,2,3,5,16,24; random + the stratified classes listed in coverage.classes) fitted by the real PCA(); one evaluation = one fitted model "
+                           "validated by TLC; distinct = distinct (generator, n, c, scaling, npc, nproc, output mode, history position); non-trivial = npc >= 2 or c > n")
         rej = _validate(ctx, chunks, "trace_pca", 6 if ctx.quick else 12)
         ctx.traces(nfit - rej if nfit > rej else 0)
+        if not ctx.violations:
+            missing = [t for t in REQUIRED_CLASSES if not ctx.classes.get(t)]
+            if missing:
+                raise InfraError("c01: input classes never executed (measured by TLC on the recording): %s" % missing)
         _binding(ctx, chunks)
     finally:
         shutil.rmtree(rd, ignore_errors=True)
@@ -289,14 +673,18 @@ def run(ctx):
 
 def replay(ctx, body):
     case = body.get("case") or {}
-    if case.get("kind") != "model" or case.get("seed") is None:
+    if case.get("kind") not in ("model", "hist"):
         return run(ctx)
     lib = build.build_lib("san")
     exe = build.build_harness("c01", ["c01_drv.c"], lib)
     rd = tlc.rundir()
     try:
         out = os.path.join(rd, "replay.ndjson")
-        h = hrun.run(exe, [out, "one", case["seed"], case["n"], case["c"], case["scaling"], case["npc"], case.get("nproc") or 1], timeout=600)
+        if case["kind"] == "hist":
+            args = [out, "hist", case["hs"], case.get("nproc") or 1]
+        else:
+            args = [out, "case", case.get("gen", "rnd"), case.get("gp", 0), case["seed"], case["n"], case["c"], case["scaling"], case["npc"], case.get("nproc") or 1]
+        h = hrun.run(exe, args, timeout=600, env=SAN_HIST)
         ev = [e for e in hrun.read_ndjson(out) if e.get("e") != "Summary"]
         if h.san:
             ctx.violation("PCA:%s" % h.san, h.err[:1500], case)
@@ -304,10 +692,10 @@ def replay(ctx, body):
             raise InfraError("replay produced no events: %s" % h.err[-500:])
         for e in ev:
             if e["e"] == "Fit":
-                ctx.case((e["n"], e["c"], e["scaling"], e["npc"], e["nproc"]))
+                ctx.case((e["gen"], e["gp"], e["n"], e["c"], e["scaling"], e["npc"], e["nproc"], e["rmode"], e["h"]))
                 ctx.case(("replay", e["seed"]))
         ctx.sample(ev)
-        ctx.cov["rule"] = "replay of one recorded model (seed, n, c, scaling, npc, nproc) refitted on the current tree"
+        ctx.cov["rule"] = "replay of one recorded model (generator, seed, n, c, scaling, npc, nproc) or in-process history refitted on the current tree"
         rej = _validate(ctx, [ev], "replay", 3)
         ctx.traces(0 if rej else 1)
     finally:
